@@ -82,6 +82,16 @@ def _make_strict(s):
     return s
 
 
+def _ellipsis_in_lists(v):
+    """v with a `...` in the middle (and at the end) of every list of two or more members"""
+    if isinstance(v, list):
+        w = [_ellipsis_in_lists(x) for x in v]
+        return w[:1] + [...] + w[1:] + [...] if len(w) >= 2 else w + [...]
+    if isinstance(v, dict):
+        return {k: _ellipsis_in_lists(x) for k, x in v.items()}
+    return v
+
+
 @st.composite
 def _case(draw):
     base = draw(specs.spec_strategy(depth=draw(st.sampled_from([1, 1, 2, 2, 3])), sat=True))
@@ -97,6 +107,11 @@ def _case(draw):
         vals.append(draw(values.near_multi(base, 3))[0])
         vals.append(draw(values.perturb(vals[0]))[0])
         vals.append(draw(values.inject(vals[0]))[0])
+        # what substitution is about: a partial value, and a value holding `...` placeholders (also in the middle of lists)
+        from .. import substgen
+        vals.append(substgen.project(draw, vals[0], p=draw(st.sampled_from([1, 2]))))
+        vals.append(substgen.put_ellipsis(draw, vals[0]))
+        vals.append(_ellipsis_in_lists(vals[0]))
     except values.Unsat:
         pass
     vals.append(draw(values.junk))
